@@ -204,6 +204,7 @@ pub fn build<Data: GarnishData>(parse_root: usize, parse_tree: Vec<ParseNode>, d
             }
         };
         let mut stack = vec![root_index];
+        let root_start = data.get_instruction_len();
 
         while let Some(node_index) = stack.pop() {
             let parse_node = match parse_tree.get(node_index) {
@@ -236,7 +237,12 @@ pub fn build<Data: GarnishData>(parse_root: usize, parse_tree: Vec<ParseNode>, d
             }
         }
 
-        let last_instruction = data.get_instruction_iter().last();
+        // the previous instruction only terminates this root if this root emitted it,
+        // an empty root must not borrow the terminator of the block before it
+        let last_instruction = match data.get_instruction_len() > root_start {
+            true => data.get_instruction_iter().last(),
+            false => None,
+        };
         let end_instructions = match nodes.get(root_index) {
             Some(Some(node)) => match &node.root_end_instruction {
                 Some(end_instruction) => end_instruction.clone(),
